@@ -16,7 +16,7 @@ for rel, mods in ATTACH.items():
 
 COMMON_TB = [
     "Kani 0.68 / CBMC 6.11 / cadical (compiler front end, goto translation, SAT back end)",
-    "kani/shims/kcoll: array-backed insertion-ordered HashMap/HashSet (cap 8) substituted for std::collections hash containers",
+    "kani/shims/kcoll: array-backed insertion-ordered HashMap/HashSet/VecDeque substituted for std::collections containers (capacity 4 entries / 8 queue slots; 8 entries in the L8 profile; 2 entries / 3 slots in profile S; overflow is a hard error reported as harness mismatch)",
 ]
 TB_L = COMMON_TB + [
     "kani/shims/tokio: sequential channels (unbounded FIFO), Sleep fired only by the harness, select! polling from a nondeterministic start index",
